@@ -29,6 +29,11 @@ RULE = ("quick: direct mode (NodeInfo::update_transports) — 14 record sets of 
         "actor mode — 260 random interleavings (<= 9 calls, 2-3 nodes, InsertTransportInfo with occasional InsertNodeInfo) on the real actor. "
         "thorough: 60 sets x 24 orders, 300 sets of 5 x 12 orders, 2500 actor scenarios (<= 14 calls). Timestamps from a small domain "
         "(distinct, with deliberate ties in 1/5 of the sets) plus values near 2^63 and 2^64-1. "
+        "both tiers additionally: forged address lists (signature + timestamp of an authentic record kept; attacker address of the same "
+        "transport type inserted in front / behind / in the middle, two inserted, address duplicated, list reordered, one replaced, one "
+        "dropped) x signed lists of 1-3 addresses x 3 attacker address kinds, each next to an older authentic record and the authentic "
+        "twin, forged arriving first / between / last (thorough: all 6 orders), alone, and through the actor; the same class and authentic "
+        "multi-address records are mixed into the random sets. "
         "non-trivial = at least one rejected and at least two accepted records, one of which replaced an older one or lost against a newer one")
 
 U64 = 2 ** 64 - 1
@@ -60,6 +65,14 @@ def _rec(rng, kind, node, nkeys, ts, port):
         return {"k": "A", "signer": node, "sts": sts, "saddrs": own, "ts": list(ts), "addrs": own}
     if kind == "tamper_addr":
         return {"k": "A", "signer": node, "sts": list(ts), "saddrs": own, "ts": list(ts), "addrs": [[node, port + 1000]] if rng.random() < 0.5 else []}
+    if kind == "addr_forge":
+        return _addr_forge(rng, rng.choice(ADDR_MUTS), node, other, ts, port, rng.choice([1, 1, 2, 3]), rng.randrange(3))
+    if kind == "auth_multi":
+        # authentic record whose SIGNED list holds several addresses of the one transport type (struct-level, no de-duplication)
+        a = _signed_list(node, port, rng.choice([2, 3]))
+        if rng.random() < 0.3:
+            a = a + [a[0]]
+        return {"k": "A", "signer": node, "sts": list(ts), "saddrs": a, "ts": list(ts), "addrs": a}
     if kind == "trusted":
         a = own if rng.random() < 0.7 else ([] if rng.random() < 0.5 else [[node, port], [node, port + 1]])
         return {"k": "T", "ts": list(ts), "addrs": a}
@@ -69,15 +82,109 @@ def _rec(rng, kind, node, nkeys, ts, port):
     raise ValueError(kind)
 
 
-GOOD = ["auth", "auth", "trusted"]
-BAD = ["forged", "tamper_ts", "tamper_addr", "mismatch"]
+# --- forged address lists: signature and timestamp of an authentic record kept, only the address list changed ---
+# (all addresses are TransportAddress::Iroh, the only transport type; "same type" = another Iroh address)
+ADDR_MUTS = ["ins_front", "ins_back", "ins_mid", "dup", "dup_far", "reorder", "replace", "drop", "ins_front2", "sandwich"]
+
+
+def _signed_list(node, port, n):
+    return [[node, port + 10 * j] for j in range(n)]
+
+
+def _attacker(node, other, port, akind):
+    # attacker endpoint id / the node's own id with another socket address / attacker id on the signed port
+    return [[other, port + 2000], [node, port + 3000], [other, port]][akind]
+
+
+def _mutate(rng, mut, s, atk, atk2):
+    n = len(s)
+    if mut == "ins_front":
+        return [atk] + s
+    if mut == "ins_back":
+        return s + [atk]
+    if mut == "ins_mid":
+        i = rng.randint(1, n - 1) if n >= 2 else 0
+        return s[:i] + [atk] + s[i:]
+    if mut == "dup":
+        i = rng.randrange(n)
+        return s[:i + 1] + [s[i]] + s[i + 1:]
+    if mut == "dup_far":
+        return ([s[-1]] + s) if rng.random() < 0.5 else (s + [s[0]])
+    if mut == "reorder":
+        if n < 2:
+            return [atk] + s
+        t = s[1:] + s[:1] if rng.random() < 0.5 else s[::-1]
+        return t
+    if mut == "replace":
+        i = rng.randrange(n)
+        return s[:i] + [atk] + s[i + 1:]
+    if mut == "drop":
+        return s[1:] if rng.random() < 0.5 else s[:-1]
+    if mut == "ins_front2":
+        return [atk, atk2] + s
+    if mut == "sandwich":
+        return [atk] + s + [atk2]
+    raise ValueError(mut)
+
+
+def _addr_forge(rng, mut, node, other, ts, port, n, akind):
+    s = _signed_list(node, port, n)
+    atk = _attacker(node, other, port, akind)
+    atk2 = _attacker(node, other, port + 1, (akind + 1) % 3)
+    a = _mutate(rng, mut, s, atk, atk2)
+    assert a != s
+    return {"k": "A", "signer": node, "sts": list(ts), "saddrs": s, "ts": list(ts), "addrs": a, "mut": mut}
+
+
+def _twin(r):
+    """the authentic record a forged address list was derived from (same signature, same timestamp)"""
+    return {"k": "A", "signer": r["signer"], "sts": list(r["sts"]), "saddrs": r["saddrs"], "ts": list(r["sts"]), "addrs": r["saddrs"]}
+
+
+def _forge_sets(rng, tier):
+    """every structural mutation x signed-list length x attacker address kind, next to an older authentic record and the
+    authentic twin; forged record arriving first / between / last (quick) or in all 6 orders (thorough)"""
+    for mut in ADDR_MUTS:
+        for n in (1, 2, 3):
+            if n == 1 and mut in ("ins_mid", "reorder", "dup_far"):
+                continue  # coincide with ins_front / dup on a single address
+            for akind in range(3):
+                if mut in ("dup", "dup_far", "reorder", "drop") and akind > 0:
+                    continue  # no attacker address involved
+                nkeys = rng.choice([2, 3])
+                node = rng.randrange(nkeys)
+                other = rng.choice([k for k in range(nkeys) if k != node])
+                t_old, t_new = sorted(_ts_pool(rng, 2, False))
+                f = _addr_forge(rng, mut, node, other, t_new, 200, n, akind)
+                old = {"k": "A", "signer": node, "sts": list(t_old), "saddrs": [[node, 100]], "ts": list(t_old), "addrs": [[node, 100]]}
+                recs = [old, _twin(f), f]
+                orders = list(itertools.permutations(range(3))) if tier != "quick" else [(2, 0, 1), (0, 2, 1), (0, 1, 2)]
+                for o in orders:
+                    yield {"mode": "direct", "nkeys": nkeys, "node": node, "recs": recs, "order": list(o)}
+                # without the twin: the forged record is the newest thing the node ever hears
+                yield {"mode": "direct", "nkeys": nkeys, "node": node, "recs": [old, f], "order": [0, 1]}
+                yield {"mode": "actor", "nkeys": nkeys, "recs": recs,
+                       "ops": [{"o": "t", "n": node, "r": 0}, {"o": "t", "n": node, "r": 2}, {"o": "t", "n": node, "r": 1},
+                               {"o": "t", "n": node, "r": 2}]}
+
+
+GOOD = ["auth", "auth", "trusted", "auth_multi"]
+BAD = ["forged", "tamper_ts", "tamper_addr", "mismatch", "addr_forge", "addr_forge"]
 
 
 def _recset(rng, n, node, nkeys):
     tss = _ts_pool(rng, n, ties=rng.random() < 0.2)
     kinds = [rng.choice(GOOD), rng.choice(GOOD), rng.choice(BAD)] + [rng.choice(GOOD + BAD) for _ in range(n - 3)]
     rng.shuffle(kinds)
-    return [_rec(rng, kinds[i], node, nkeys, tss[i], 100 + i) for i in range(n)]
+    recs = [_rec(rng, kinds[i], node, nkeys, tss[i], 100 + i) for i in range(n)]
+    # sometimes the authentic twin of a forged address list is in the set too (same timestamp, same signature)
+    for i in range(n):
+        if "mut" in recs[i] and rng.random() < 0.4:
+            js = [j for j in range(n) if kinds[j] in ("auth", "auth_multi")]
+            if js:
+                recs[rng.choice(js)] = _twin(recs[i])
+            break
+    return recs
 
 
 def gen(tier, rng):
@@ -85,6 +192,7 @@ def gen(tier, rng):
         nsets4, nsets5, nperm5, nactor, maxops = 14, 60, 4, 260, 9
     else:
         nsets4, nsets5, nperm5, nactor, maxops = 60, 300, 12, 2500, 14
+    yield from _forge_sets(rng, tier)
     for _ in range(nsets4):
         nkeys = rng.choice([2, 3])
         node = rng.randrange(nkeys)
@@ -232,10 +340,11 @@ def shrink(case):
 
 
 def distribution(cases, impl):
-    d = {"direct": 0, "actor": 0, "rejected_sig": 0, "rejected_id": 0, "accepted_newer": 0, "accepted_older": 0, "with_timestamp_tie": 0,
+    d = {"direct": 0, "actor": 0, "forged_addr_list_records": 0, "rejected_sig": 0, "rejected_id": 0, "accepted_newer": 0, "accepted_older": 0, "with_timestamp_tie": 0,
          "local_overwrites": 0}
     for i, c in enumerate(cases):
         d[c["mode"]] += 1
+        d["forged_addr_list_records"] += sum(1 for r in c["recs"] if "mut" in r)
         tss = [tuple(r["ts"]) for r in c["recs"]]
         if len(set(tss)) < len(tss):
             d["with_timestamp_tie"] += 1
